@@ -17,8 +17,9 @@ RULE = ("histories of 1..6 editing operations (list insert/append/pop, list-leve
         "directed stream (auto_commit on, 1..3 ops) aimed at the parent-frame theorems: child-level append_to_family to childless "
         "and to parent targets (as given / auto_indent / explicit indent), object-level inserts at the indent of the line they are "
         "placed next to, list-level inserts by a regex that matches the lines of one indent, list insert(k) of a shallow line, "
-        "replace_text that keeps indentation and kind, delete. Banner/macro configs are not generated here (their families are "
-        "delimited, not indentation based; C07 compares their trees). Object-level operations take their object from the committed "
+        "replace_text that keeps indentation and kind, delete. Banner/macro configs (3 seed configs + 2 with a macro / two banners) get "
+        "every single operation except delete/append_to_family (their families are delimited, not indentation based; C07 compares "
+        "those trees): text effect and 'lines above the edit keep their parents' are judged there. Object-level operations take their object from the committed "
         "tree: while an uncommitted change is pending (auto_commit off) delete/append_to_family are skipped on both sides, because "
         "line numbers of held objects are documented to be stale until commit. non-trivial = a history with at least one successful "
         "mutation; distinct by request. The buckets `frame:*` count the situations of the parent-frame theorems that occurred.")
@@ -58,7 +59,9 @@ LEVEL_TEXT = ("Theorems (Lean 4, Ccp.Props.C06, for all states and payloads of t
               "the old list and an old line whose new parent is an old line has it at the image of its old parent (MultiFrame), and when the "
               "regex matches only config lines not indented deeper than the payload no old line is adopted by a copy "
               "(listInsertBefore_same_indent). (5) replace_text / re_sub: lines above the position keep their parents whatever the new text is; "
-              "when the new text has the indentation and kind of the old one no parent changes. Exclusions, each with a decided "
+              "when the new text has the indentation and kind of the old one no parent changes. (6) For EVERY config — banner and macro families "
+              "included, no restriction on config or payload, blank lines kept — no operation changes the parent of a line above the edited "
+              "position (lines_above_keep_parents, from prefix locality of passes 1-3: link_prefix). Exclusions, each with a decided "
               "counterexample: a comment directly below the insertion point / below a deleted line (C02's comment-under-a-deeper-line rule). "
               "With auto_commit on and ignore_blank_lines the texts are one bootstrap of the auto_commit-off result: a sublist of it keeping "
               "every non-blank line. The model is tied to the code by differential runs of whole histories (texts after every step, tree after "
@@ -70,8 +73,9 @@ LEVEL_NOTE = ("Trusted: Lean kernel, standard axioms, harness. Regexes are oracl
               "payload the index is characterised through the code's own helpers (last sibling / last_family_linenum). Known finding F10d: "
               "append_to_family on a comment or blank target (which heads no family) can make following lines children of the new line — "
               "the hypothesis 'the target is a configuration line' of the childless theorem is necessary; appendToFamily_parents says "
-              "which lines are captured. Not covered by the parent theorems: configs (or payloads) with banner or macro starts — there the "
-              "links are delimiter based; only C07's 'tree after commit = fresh parse' applies — and states with uncommitted changes "
+              "which lines are captured. Configs (or payloads) with banner or macro starts: only the lines ABOVE the edited position are covered "
+              "(lines_above_keep_parents); for the lines below it the links are delimiter based and only C07's 'tree after commit = fresh "
+              "parse' applies. Not covered: states with uncommitted changes "
               "(auto_commit off), where no tree exists until the commit. The list-level frame is stated over positions of the new list "
               "(rank = old position), not as a closed formula old index -> new index.")
 ASSUMPTIONS = ["object handles are used only on a committed state", "auto_indent_width is the syntax default (1, or 2 for nxos)"]
@@ -140,6 +144,13 @@ def directed_ops(rng, lines, width, ign=False):
     return ["del", h]
 
 
+def banner_seeds():
+    return [c for c in E.SEED_CONFIGS if c not in seeds()] + [
+        ["hostname a", "macro name m", " x", "y", "@", "interface X", " shutdown"],
+        ["a", " b", "banner login ^C", "  deep", "^C", " c", "banner motd #one line#", "d"],
+    ]
+
+
 def cases(rng, tier):
     if tier != "search":
         for lines in seeds():
@@ -149,6 +160,13 @@ def cases(rng, tier):
             # the same single operations under ignore_blank_lines (a sample; blank payloads included)
             for op in single_ops()[::3]:
                 yield E.mk_case("ios", True, True, lines, [op], "single-ign")
+        # configs with banner / macro families: text effect and `lines_above_keep_parents` only (their families
+        # are delimited, not indentation based; delete / append_to_family on them are C07's)
+        for lines in banner_seeds():
+            for op in single_ops():
+                if op[0] in ("del", "atf"):
+                    continue
+                yield E.mk_case("ios", False, True, lines, [op], "single-banner")
     n = {"quick": 1200, "thorough": 60000, "search": 2500}[tier]
     for _ in range(n):
         syntax = rng.choice(["ios", "ios", "nxos", "asa", "iosxr"])
@@ -387,8 +405,19 @@ def oracle(case, ans):
         if cur != want:
             fails.append(f"{tag}: texts {cur!r} expected {want!r}")
             continue
-        # ---- replay of the parent-frame theorems on the implementation's own trees (plain configs, committed states)
-        if dump_prev is None or dump_cur is None or not is_plain(prev) or not is_plain(cur):
+        # ---- replay of the parent-frame theorems on the implementation's own trees (committed states)
+        if dump_prev is None or dump_cur is None:
+            continue
+        if not ign:
+            # `lines_above_keep_parents`: any config, banner / macro families included
+            npre = 0
+            while npre < min(len(prev), len(cur)) and prev[npre] == cur[npre]:
+                npre += 1
+            bad = [j for j in range(npre) if dump_cur["parents"][j] != dump_prev["parents"][j]]
+            if bad:
+                fails.append(f"{tag}: prefix-frame: lines {bad} above the edited position changed parent")
+                continue
+        if not is_plain(prev) or not is_plain(cur):
             continue
         par0, par1 = dump_prev["parents"], dump_cur["parents"]
         f = None
